@@ -69,6 +69,57 @@ def run(prog, rep, tier, repo):
     # ------------------------------------------------------------------ D0 every sample is counted
     every_sample_counted(prog, rep, sorted(k for k in pdb.bodies if pdb.bodies[k].kind != 'closure' and
                                           (k.startswith(ST + 'covariance::') or k.startswith(ST + 'moments::'))))
+    # one-sample update helpers (aggregate, value) -> aggregate: every return site counts the sample (count + 1); a site that hands the
+    # aggregate back unchanged "because the value changes nothing" drops it from the count, and every later mean and M2 with it
+    for k_, b_ in sorted(pdb.bodies.items()):
+        if not (k_.startswith(ST) and b_.kind != 'closure' and b_.arg_count == 2):
+            continue
+        t0_, t1_, t2_ = b_.local_ty(0), b_.local_ty(1).lstrip('&'), b_.local_ty(2).lstrip('&')
+        if not (t0_ == t1_ and t0_.startswith('(usize') and t2_ == 'f64'):
+            continue
+        g_ = prog.func(k_)
+        if g_ is None:
+            continue
+        rep.touch(k_)
+        key = 'every-sample:%s:returns' % short(k_)
+        agg_ = ('arg', 1, g_.names.get(1))
+        bad_ = None
+        unread_ = False
+        for d_ in g_._defs.get(0, []):
+            v_ = g_.rvalue_term(d_[3], d_[1]) if d_[0] == 'assign' else g_.call_term(d_[2], d_[1])
+            if v_ == agg_:
+                bad_ = (d_, 'the aggregate it was given')
+                break
+            if tag(v_) == 'agg' and v_[1] == 'tuple' and v_[3]:
+                c0 = v_[3][0]
+                inc = tag(c0) == 'bin' and c0[1] == 'Add' and {c0[2], c0[3]} >= {('const', 'usize', 1)} and \
+                    any(tag(z) == 'field' and z[1] == agg_ and z[2] == 0 for z in (c0[2], c0[3]))
+                if not inc and tag(c0) == 'local':
+                    # `let (mut count, ..) = aggregate; count += 1;` -- a local initialised from the aggregate's count and incremented once on
+                    # the way to this return
+                    sts_ = [st for st in g_.stores() if st.target == c0]
+                    ini_ = [st for st in sts_ if tag(st.value) == 'field' and st.value[1] == agg_ and st.value[2] == 0]
+                    stp_ = [st for st in sts_ if st.value == ('bin', 'Add', c0, ('const', 'usize', 1), 'usize')]
+                    if len(sts_) == 2 and len(ini_) == 1 and len(stp_) == 1 and g_.cfg.dominates(stp_[0].bb, d_[1]):
+                        inc = True
+                    elif len(sts_) >= 1 and len(ini_) == 1 and not any(g_.cfg.dominates(st.bb, d_[1]) for st in stp_):
+                        bad_ = (d_, 'a count that is not incremented on this path')
+                        break
+                if not inc:
+                    if tag(c0) == 'field' and c0[1] == agg_ and c0[2] == 0:
+                        bad_ = (d_, 'a count that is not incremented')
+                        break
+                    unread_ = True
+            else:
+                unread_ = True
+        if bad_:
+            gs_ = [show(c)[:40] + (' is %s' % v) for c, v in g_.guards().get(bad_[0][1], []) if tag(c) == 'bin']
+            rep.viol('every-sample', key, '%s returns %s when {%s}: that sample is not counted, so n and every later running mean and M2 are those of a '
+                     'shorter data set' % (short(k_), bad_[1], '; '.join(gs_) or 'unconditionally'), site_of(g_.body))
+        elif unread_:
+            rep.undecided('every-sample', key, 'a return site of %s is not a tuple with count + 1' % short(k_), site_of(g_.body), proof=False)
+        else:
+            rep.ok('every-sample', key, 'every return site counts the sample')
     rep.floor('every-sample', 1, 'online covariance loop')
     # ------------------------------------------------------------------ D1 Bessel divisor
     table = [('moments::var', 0), ('moments::sample_var', 1), ('covariance::covariance', 0), ('covariance::sample_covariance', 1),
@@ -150,6 +201,72 @@ def run(prog, rep, tier, repo):
         else:
             rep.undecided('centring', key, why, proof=False)
     rep.floor('centring', 3, 'two-pass and shifted covariance estimators')
+
+    # ---- no second moment as a difference of raw moments.  sum(x*x)/n - mean^2 (or sum(x*y) - (sum x)(sum y)/n on unshifted data) equals the
+    # central moment in exact arithmetic only: both terms are of the order mean^2 and their difference of the order of the variance, so
+    # for data whose mean is large against its spread every digit cancels (negative variances, NaN standard deviations) and the result moves
+    # when a constant is added to the data.  Decided on the closed form of every variance / covariance / standard-deviation routine.
+    def _expr_iter(e_):
+        if isinstance(e_, frozenset):
+            for x_ in e_:
+                yield from _expr_iter(x_)
+        elif isinstance(e_, tuple):
+            yield e_
+            for x_ in e_[1:]:
+                if isinstance(x_, (tuple, frozenset)):
+                    yield from _expr_iter(x_)
+    RAWS = (('sym', 'X'), ('sym', 'Y'))
+
+    def _raw_square_sum(e_):
+        # a reduction that accumulates products of raw data elements
+        return any(z[0] == 'red' and any(q[0] == 'b' and q[1] == 'Mul' and q[2] in RAWS and q[3] in RAWS for q in _expr_iter(z[2])) for z in _expr_iter(e_) if len(z) > 2)
+
+    def _raw_sum(e_):
+        # a reduction that accumulates raw data elements themselves (a sum / mean of the data)
+        return any(z[0] == 'red' and any(q[0] == 'b' and q[1] == 'Add' and (q[2] in RAWS or q[3] in RAWS) for q in _expr_iter(z[2])) for z in _expr_iter(e_) if len(z) > 2) or \
+            any(z[0] == 'red' and z[1] == 'sum' and any(q in RAWS for q in z[2]) for z in _expr_iter(e_) if len(z) > 2)
+    nraw = 0
+    for name in ('moments::var', 'moments::sample_var', 'moments::std', 'moments::sample_std', 'covariance::covariance', 'covariance::sample_covariance',
+                 'covariance::sample_covariance_onepass', 'covariance::sample_covariance_online'):
+        k = ST + name
+        if k not in pdb.bodies:
+            continue
+        nraw += 1
+        key = 'raw-moment-difference:%s' % short(k)
+        nargs = pdb.bodies[k].arg_count
+        try:
+            ret_, _ = eng.result_of(k, {1: X, 2: Y} if nargs >= 2 else {1: X})
+        except Exception:
+            ret_ = None
+        if ret_ is None or isinstance(ret_, tuple) or has_top(ret_):
+            rep.undecided('raw-moment-difference', key, 'closed form not available', proof=False)
+            continue
+        def _split_folds(e_):
+            # component i of a fold over a tuple accumulator: keep only the update expressions that feed acc.i
+            if isinstance(e_, frozenset):
+                return frozenset(_split_folds(x_) for x_ in e_)
+            if not isinstance(e_, tuple):
+                return e_
+            if e_ and e_[0] == 'fld' and isinstance(e_[1], tuple) and e_[1] and e_[1][0] == 'red' and isinstance(e_[2], int):
+                sel = frozenset(q for q in e_[1][2] if any(w == ('fld', ('sym', 'acc'), e_[2]) for w in _expr_iter(q)))
+                return ('red', e_[1][1], sel)
+            return tuple(_split_folds(x_) if isinstance(x_, (tuple, frozenset)) else x_ for x_ in e_)
+        ret_ = _split_folds(ret_)
+        hit = None
+        for z in _expr_iter(ret_):
+            if z[0] == 'b' and z[1] == 'Sub' and _raw_square_sum(z[2]) and not _raw_square_sum(z[3]):
+                mul = [q for q in _expr_iter(z[3]) if q[0] == 'b' and q[1] == 'Mul' and _raw_sum(q[2]) and _raw_sum(q[3])]
+                if mul:
+                    hit = z
+                    break
+        if hit is not None:
+            rep.viol('raw-moment-difference', key, '%s computes %s: a raw second moment minus a product of raw first moments on unshifted data -- both terms are of the '
+                     'order of the squared mean, their difference of the order of the variance, so data with a mean far above their spread lose every digit '
+                     '(negative variance, NaN standard deviation; the value changes when a constant is added to the data)' % (short(k), show_expr(hit)[:160]),
+                     site_of(pdb.bodies[k]))
+        else:
+            rep.ok('raw-moment-difference', key, 'no difference of raw moments in the closed form')
+    rep.floor('raw-moment-difference', 6, 'variance / covariance / standard deviation routines')
 
     # ------------------------------------------------------------------ D7 co-moment update order
     for k in (ST + 'moments::welford_update', ST + 'covariance::sample_covariance_online'):
